@@ -329,3 +329,5 @@ LEVEL_NOTE = ("Trusted: Lean kernel + propext/Classical.choice/Quot.sound; the h
               "implementation vector that is ordered and denotes the same character->attribute function as the model's counts as agreement "
               "(an extra or missing empty fragment is not a difference), the Lean spec checker judges the implementation's own vector. "
               "The real code runs in a forked worker with a memory limit and a per-case deadline, so a spinning merge loop is reported as hang/crash.")
+
+TECHNIQUE += " + translator tie: one iteration of the while loop of merge_fragments translated from src/ansi.rs and proved equal to one step of the model's literal loop (Props/MergeFnsTables.lean)"
